@@ -6,7 +6,7 @@ import re
 
 from sa.astx import NotConst, call_attr, call_name, const_eval, dotted, lincmp, src, walk_local
 from sa.selftest import Mutant, Silent
-from sa.source import class_assigns
+from sa.source import AnalysisError, class_assigns
 from sa.props._lib_j import (all_paths, asserted_eq, asserted_in, bind_args, catching_handler, clone, edge_asserts,
     handler_names, names_loaded, body_always_entered, dep, run_sections, node_calls, normal_exits, params, resolve, rsrc, taint)
 
@@ -28,6 +28,8 @@ EXPLANATION = (
     "the right fields, and the m.update() sequences of calcHA1/calcHA2/calcResponse equal RFC 2617 on every path. "
     "Not decided: the hash arithmetic itself, conditional TypeErrors of checkPassword (md5-sess without cnonce, "
     "qop=auth-int); the unconditional ones (unknown algorithm, missing uri) are reported as known findings. "
+    "The pair (issue time written by _generateOpaque, age test of _verifyOpaque) is evaluated over fractional clock phases and ages around the boundary: the stamp "
+    "must be the floor of the clock and the accepted (issue, verify) instants must equal int(t') - int(t) <= LIFETIME (real age of an accepted challenge < LIFETIME + 1 s). "
     "Also decided: no anchor on the decode->guards path (nor the clock, nonce and opaque generators) carries a decorator, second definition or rebinding that could answer a call without executing the body (memoisation of a verdict that depends on the clock); the pure _digest helpers may be cached. "
 )
 ASSUMPTIONS = [
@@ -153,7 +155,8 @@ def _generator(ctx):
     ktext = src(keyexpr)
     tmpl, hits = _template(elts[pos_digest], lambda n: src(n) == ktext)
     return {"func": f, "q": q, "sep1": sep1, "sep2": sep2, "pos_key": pos_key, "pos_digest": pos_digest, "encoder": encoder,
-            "order": order, "digest_template": tmpl, "digest_hits": hits, "time_expr": next((src(e) for e in fields if "_getTime" in src(e)), "")}
+            "order": order, "digest_template": tmpl, "digest_hits": hits, "time_expr": next((src(e) for e in fields if "_getTime" in src(e)), ""),
+            "time_ast": next((e for e in fields if "_getTime" in src(e)), None)}
 
 
 def _escape_rules(ctx, rel, qual, q, seeds, count):
@@ -353,6 +356,8 @@ def _s_verify(ctx, S):
                 if now and whens and len(terms) == len(now[:1]) + len(whens[:1]) + len(lim[:1]):
                     bound = c if lim else (c - L if L is not None else None)
                     found["lifetime"] = bound
+                    a_ = _Abstract(lambda n_: kp_index(n_) == idx_time, "STAMP")
+                    S.__dict__.setdefault("lifetime_tests", []).append((a_.visit(clone(rt)), lab, src(orig)))
         where = ctx.construct(qv, node.ast) if node.ast is not None else qv + " | <end of function>"
         ctx.check(found["nonce"], "verify/guard-nonce", where,
                   "verification succeeds without the nonce embedded in the opaque being compared with the nonce of the response "
@@ -692,6 +697,111 @@ def _s_rfc2617(ctx, S):
 
 
 
+def _ev(node, env):
+    """Evaluate a clock / timestamp expression: arithmetic, int/round/floor/ceil/float, %-formatting, comparisons.
+    ``self._getTime()`` reads env['clock']; names and ...CHALLENGE_LIFETIME_SECS come from env."""
+    import math
+    if isinstance(node, ast.Constant):
+        return node.value
+    if isinstance(node, ast.Name):
+        if node.id in env:
+            return env[node.id]
+        raise NotConst(node.id)
+    if isinstance(node, ast.Attribute):
+        if node.attr == "CHALLENGE_LIFETIME_SECS":
+            return env["LIFETIME"]
+        raise NotConst(src(node))
+    if isinstance(node, ast.Tuple):
+        return tuple(_ev(e, env) for e in node.elts)
+    if isinstance(node, ast.Call):
+        fn = dotted(node.func) or ""
+        if fn.endswith("._getTime") or fn in ("time.time", "time"):
+            return env["clock"]
+        args = [_ev(a, env) for a in node.args]
+        table = {"int": int, "round": round, "float": float, "abs": abs, "max": max, "min": min, "math.floor": math.floor, "floor": math.floor,
+                 "math.ceil": math.ceil, "ceil": math.ceil, "math.trunc": math.trunc, "trunc": math.trunc, "divmod": divmod, "str": str, "bytes": bytes}
+        if fn in table and not node.keywords:
+            return table[fn](*args)
+        if isinstance(node.func, ast.Attribute) and node.func.attr in ("encode", "decode") and not node.keywords:
+            return getattr(_ev(node.func.value, env), node.func.attr)(*args)
+        raise NotConst("call " + fn)
+    if isinstance(node, ast.UnaryOp):
+        v = _ev(node.operand, env)
+        return {ast.USub: lambda: -v, ast.UAdd: lambda: +v, ast.Not: lambda: not v}[type(node.op)]()
+    if isinstance(node, ast.BinOp):
+        a, b = _ev(node.left, env), _ev(node.right, env)
+        ops = {ast.Add: lambda: a + b, ast.Sub: lambda: a - b, ast.Mult: lambda: a * b, ast.FloorDiv: lambda: a // b, ast.Div: lambda: a / b, ast.Mod: lambda: a % b}
+        if type(node.op) in ops:
+            return ops[type(node.op)]()
+        raise NotConst("binop")
+    if isinstance(node, ast.BoolOp):
+        vals = [_ev(v, env) for v in node.values]
+        return all(vals) if isinstance(node.op, ast.And) else any(vals)
+    if isinstance(node, ast.Compare):
+        left = _ev(node.left, env)
+        for op, r in zip(node.ops, node.comparators):
+            right = _ev(r, env)
+            ok = {ast.Lt: left < right, ast.LtE: left <= right, ast.Gt: left > right, ast.GtE: left >= right, ast.Eq: left == right, ast.NotEq: left != right}[type(op)]
+            if not ok:
+                return False
+            left = right
+        return True
+    raise NotConst(type(node).__name__)
+
+
+def _s_timestamp(ctx, S):
+    """K12 on the pair (issue time written by _generateOpaque, age test of _verifyOpaque): evaluated over fractional clock phases, the accepted set
+    must equal  int(t_verify) - int(t_issue) <= LIFETIME  (so the real age of an accepted challenge never exceeds LIFETIME + 1 s, as today)."""
+    gen = dep(S.gen, "_generateOpaque")
+    tests = dep(S.lifetime_tests, "lifetime test of _verifyOpaque")
+    stamp_ast = gen.get("time_ast")
+    ctx.need(stamp_ast is not None, "time field of the opaque key in _generateOpaque")
+    try:
+        L = int(const_eval(class_assigns(ctx.cls(CRED, "DigestCredentialFactory"))["CHALLENGE_LIFETIME_SECS"]))
+    except (KeyError, NotConst, TypeError, ValueError):
+        L = 900
+    phases = (0.0, 0.25, 0.5, 0.75)
+    q = QF + "._generateOpaque/_verifyOpaque | issue time vs age test"
+
+    def stamp(t):
+        v = _ev(stamp_ast, {"clock": t, "LIFETIME": L})
+        return v if isinstance(v, bytes) else (b"%d" % v)
+    try:
+        # (1) the stamp never lies in the future of the true issue time and loses less than one second
+        worst = None
+        for k in (1000, 1001, 1700000000):
+            for ph in phases + (0.49, 0.51, 0.99):
+                t = k + ph
+                st = int(stamp(t))
+                if not (t - 1 < st <= t) and worst is None:
+                    worst = (t, st)
+        ctx.check(worst is None, "lifetime/issue-time-is-floor-of-clock", gen["q"] + " | time field",
+                  f"the issue time written into the opaque is not the floor of the clock: issued at t={worst and worst[0]} it says {worst and worst[1]} - a stamp in the "
+                  f"future makes _verifyOpaque accept the challenge beyond its lifetime ({gen['time_expr']})")
+        # (2) the accepted set of (issue, verify) instants
+        diff = None
+        n = 0
+        for rt, lab, text in tests:
+            for ph in phases:
+                t = 1000 + ph
+                st = stamp(t)
+                for dk in range(L - 2, L + 4):
+                    for ph2 in phases:
+                        t2 = 1000 + dk + ph2
+                        test = bool(_ev(rt, {"clock": t2, "LIFETIME": L, "STAMP": st}))
+                        rejected = test if lab == "F" else not test
+                        oracle_accept = int(t2) - int(t) <= L
+                        n += 1
+                        if (not rejected) != oracle_accept and diff is None:
+                            diff = (t, t2, not rejected, oracle_accept, text)
+        ctx.extra["timestamp_pairs_evaluated"] = n
+        ctx.check(diff is None, "lifetime/accepted-instants-equal-spec", q,
+                  f"issued at t={diff and diff[0]}, verified at t'={diff and diff[1]} (real age {diff and round(diff[1] - diff[0], 2)} s, lifetime {L}): the code "
+                  f"{'accepts' if diff and diff[2] else 'rejects'}, the specification int(t') - int(t) <= LIFETIME {'accepts' if diff and diff[3] else 'rejects'}")
+    except NotConst as e:
+        raise AnalysisError(f"timestamp expression not evaluable: {e}")
+
+
 def _s_floors(ctx, S):
     count = _count(S)
     ctx.floor("escape/raises-only-LoginFailed", count["raise"], 6, "raise statements")
@@ -712,7 +822,7 @@ def _s_memo(ctx, S):
 
 def check(ctx):
     run_sections(ctx, [("generator", _s_generator), ("verifyOpaque", _s_verify), ("agreement", _s_agreement), ("decode", _s_decode),
-                       ("challenge", _s_challenge), ("response", _s_response), ("rfc2617", _s_rfc2617), ("memoisation", _s_memo),
+                       ("challenge", _s_challenge), ("response", _s_response), ("timestamp", _s_timestamp), ("rfc2617", _s_rfc2617), ("memoisation", _s_memo),
                        ("floors", _s_floors)])
 
 
@@ -756,6 +866,12 @@ MUTANTS = [
            more=[(_V, "        return True\n\n    def decode(self, response, method, host):", "        self._verified.add((opaque, nonce, clientip))\n        return True\n\n    def decode(self, response, method, host):"),
                  (_V, "        self.privateKey = secureRandom(12)\n", "        self.privateKey = secureRandom(12)\n        self._verified = set()\n")],
            expect_rule="verify/guard-lifetime"),
+    Mutant("issue-time-rounded-to-nearest", _V, "        now = b\"%d\" % (int(self._getTime()),)", "        now = b\"%d\" % (int(self._getTime() + 0.5),)",
+           expect_rule="lifetime/"),
+    Mutant("issue-time-rounded-up", _V, "        now = b\"%d\" % (int(self._getTime()),)", "        now = b\"%d\" % (math.ceil(self._getTime()),)",
+           more=[(_V, "import base64\n", "import base64\nimport math\n")], expect_rule="lifetime/"),
+    Mutant("age-computed-from-rounded-down-clock-minus-one", _V, "            int(self._getTime()) - when\n            > DigestCredentialFactory", "            int(self._getTime() - 0.5) - when\n            > DigestCredentialFactory",
+           expect_rule="lifetime/accepted-instants-equal-spec"),
     Mutant("short-key-index", _V, "        if len(keyParts) != 3:\n", "        if len(keyParts) < 2:\n", expect_rule="escape/index-in-range"),
     Mutant("checkHash-uses-cnonce-as-nonce", _V,
            "            calcHA2(algo, self.method, uri, qop, None),\n            algo,\n            nonce,\n            nc,\n            cnonce,\n            qop,\n        )\n\n        return expected == response\n\n\nclass DigestCredentialFactory",
@@ -774,5 +890,8 @@ SILENT = [
     Silent("pure-digest-helper-cached", DIGEST, "def calcHA2(algo, pszMethod, pszDigestUri, pszQop, pszHEntity):",
            "@lru_cache(maxsize=64)\ndef calcHA2(algo, pszMethod, pszDigestUri, pszQop, pszHEntity):",
            more=[(DIGEST, "from binascii import hexlify\n", "from binascii import hexlify\nfrom functools import lru_cache\n")]),
+    Silent("issue-time-math-floor", _V, "        now = b\"%d\" % (int(self._getTime()),)", "        now = b\"%d\" % (math.floor(self._getTime()),)",
+           more=[(_V, "import base64\n", "import base64\nimport math\n")]),
+    Silent("issue-time-floor-division", _V, "        now = b\"%d\" % (int(self._getTime()),)", "        now = b\"%d\" % (int(self._getTime() // 1),)"),
     Silent("update-concatenated", DIGEST, "    m.update(pszMethod)\n    m.update(b\":\")\n    m.update(pszDigestUri)\n", "    m.update(pszMethod + b\":\")\n    m.update(pszDigestUri)\n"),
 ]
